@@ -332,11 +332,15 @@ func badFrost(c *fw.Ctx) *badCase {
 		if t == 0 && c.S.Draw(2, "t-bump") == 1 && n > 1 {
 			t = 1
 		}
-		m := agedMaterial(c, scen.PrepMaterial(c, p, ids, t, "prep"))
+		fresh := scen.PrepMaterial(c, p, ids, t, "prep")
+		m := agedMaterial(c, fresh)
 		msg := scen.DrawMsg(c)
 		signers := scen.DrawSubset(c.S, ids, t+1)
 		classes := []string{"signers-too-few", "signers-non-shareholder", "signers-duplicate", "signers-without-self", "message-nil", "message-empty", "config-nil", "config-zero-value", "config-stripped-share", "config-stripped-table", "signers-foreign-replaces-shareholder"}
 		bc.class = classes[c.S.Draw(len(classes), "class")]
+		if m != fresh && c.S.Draw(3, "aged-too-few") == 2 {
+			bc.class = "signers-too-few" // what a derivation or refresh must carry over is the threshold
+		}
 		if bc.class == "signers-too-few" && t == 0 {
 			bc.class = "signers-non-shareholder"
 		}
